@@ -804,7 +804,8 @@ class PartitionBulkIndexParamSource:
 
     @property
     def percent_completed(self):
-        return self.current_bulk / self.total_bulks
+        # a client whose partition contains no documents has nothing to do: it is complete right away
+        return self.current_bulk / self.total_bulks if self.total_bulks else 1.0
 
 
 class OpenPointInTimeParamSource(ParamSource):
